@@ -76,15 +76,16 @@ class Peer:
         N = len(forest.X)
         k = min(self.k, N)
         W = np.zeros((len(Q), N), dtype=float)
-        if len(Q):
-            D = ((forest.X[None, :, :] - Q[:, None, :]) ** 2).sum(axis=2)
+        w = np.arange(k, 0, -1, dtype=float)
+        w = w / w.sum()
+        for lo in range(0, len(Q), 512):        # bounded memory for very large queries
+            q = Q[lo:lo + 512]
+            D = ((forest.X[None, :, :] - q[:, None, :]) ** 2).sum(axis=2)
             order = np.argsort(D, axis=1, kind="stable")[:, :k]
-            w = np.arange(k, 0, -1, dtype=float)
-            w = w / w.sum()
-            W[np.arange(len(Q))[:, None], order] = w[None, :]
+            W[np.arange(lo, lo + len(q))[:, None], order] = w[None, :]
         if self.slack:
             W = W * (1.0 + 1e-13)
-        self.log.append(("predict", forest.fid, Q.copy(), W.copy()))
+        self.log.append(("predict", forest.fid, Q.copy(), W.copy() if W.size < 4000000 else W))
         Y = forest.Y.copy()
         return [W, Y]
 
